@@ -6,7 +6,8 @@ HOOKS = {
     "enable": "go build -tags verif (the harness module /verif/harness replaces github.com/gopherjs/gopherjs by /repo)",
     "baseline_off_cmd": BASELINE_OFF,
     "source_commits": ["verif hook: expose the go/build context configured by goCtx (build/verif_hooks_c18.go)",
-                       "verif hook: expose encodeString (compiler/verif_hooks_c14.go)"],
+                       "verif hook: expose encodeString (compiler/verif_hooks_c14.go)",
+                       "verif hook: expose the overlay augmentation entry points (build/verif_hooks_c12.go)"],
     "add_only": True,
 }
 
@@ -22,6 +23,20 @@ NOTES = ("Every check: python3 run.py Cxx --tier quick|thorough. Lean theorems a
 NOT_APPLICABLE = {}
 
 CHECKS = {
+    "C12": {
+        "text": "Lean theorems over a transcription of build.go's augmentOverlayFile/augmentOriginalFile/augmentOriginalImports/"
+                "pruneImports/finalizeRemovals: for all file lists the merged declarations (names with provenance, signatures, var "
+                "initialisers), their order, the import pruning rule, the nosync substitution and the init exception equal the documented "
+                "directive rules (merge_names, order_preserved, values_untouched, imports_pruned, init_never_overridden, ...). Constant "
+                "values: the full statement is false of the code (iota / implicit repetition shift) - proved counterexamples, partial "
+                "theorems, two recorded known findings replayed against the real functions and go/types on every run. Tied by running "
+                "the real functions (verif hook) on generated source pairs and on the 78 real natives overlays, plus the real "
+                "parseAndAugment on natives packages.",
+        "note": "Trusted: Lean kernel; hand model tied by differential runs; go/parser comment association and the directive regex are "
+                "exercised, not modelled; 'the merged package type-checks' is observed with go/types, not proved. Known findings: "
+                "C12-const-iota-shift, C12-const-initialiser-orphaned (proposed repair in fixes/, not applied).",
+        "technique": "Lean 4 proof (model = documented rules, all file pairs) + differential correspondence through a verif hook + go/types oracle",
+    },
     "C18": {
         "text": "Lean theorems: go/build's matchTag/goodOSArchFile/shouldBuild (transcribed), under the configuration GopherJS builds, "
                 "satisfy a tag iff it is in the documented set (js, ecmascript, gc, gopherjs, netgo, purego, math_big_pure_go, go1.1..go1.20) "
